@@ -473,7 +473,21 @@ def run_config(prop, cfg, known=(), max_paths=None, validate=True):
             elif rc["outcome"] == "exc":
                 out["errors"].append(f"witness replay raised {rc['exc']} where the symbolic path completed: {inputs}\n{rc.get('tb')}")
             elif rc["failed"] and not env.known_hits and cfg.get("floats"):
-                out["witness_float_divergence"] = out.get("witness_float_divergence", 0) + 1
+                # float64 replay of a real-number path fails an obligation.  Next to a decision boundary that is a rounding
+                # effect; if the same obligation also fails at nearby admissible inputs it is a failure of the float code
+                # itself (e.g. duplicates that only differ in the last bit) and is reported with the float witness.
+                robust = 0
+                for step in (Fraction(1, 997), Fraction(-1, 1009), Fraction(1, 4999)):
+                    pert = {k: (fr_str(Fraction(v) + step) if k in env.vars and isinstance(env.vars[k], SV) else v)
+                            for k, v in inputs.items()}
+                    r2 = run_concrete(prop, cfg, pert, known)
+                    if r2["outcome"] == "ok" and set(r2["failed"]) & set(rc["failed"]):
+                        robust += 1
+                if robust >= 2:
+                    out["violations"].append(dict(obligation=rc["failed"][0] + " (float64 run)", inputs=inputs,
+                                                  observed="; ".join(rc["detail"][:3]), cfg=cfg))
+                else:
+                    out["witness_float_divergence"] = out.get("witness_float_divergence", 0) + 1
             elif rc["failed"] and not env.known_hits:
                 out["errors"].append(f"witness replay failed {rc['detail'][:3]} though all obligations were proved: {inputs}")
             else:
